@@ -950,6 +950,90 @@ theorem C14_ucs2_parts_decode_to_text (text out : List Nat) (h : encodeAll utf16
     (cutPoints_partition ucs2Boundary out per (by omega) _ 0 (Nat.zero_le _) (by omega))
     (C14_ucs2_text_never_split text out h per hper heven)
 
+/-- the septets of one code point (as in `gsmChars`) -/
+def gsmCode (t : Gsm7.Tables) (c : Nat) : List Nat :=
+  match Gsm7.lookup t.fwd c with
+  | some v => [v]
+  | none => match Gsm7.lookup t.fwdEsc c with
+    | some v => [Gsm7.esc, v]
+    | none => []
+
+theorem gsmChars_eq_map (t : Gsm7.Tables) (text : List Nat) : gsmChars t text = text.map (gsmCode t) := rfl
+
+def gsmEncodable (t : Gsm7.Tables) (c : Nat) : Prop :=
+  (Gsm7.lookup t.fwd c).isSome = true ∨ (Gsm7.lookup t.fwdEsc c).isSome = true
+
+theorem gsm_encode_all_encodable (text s : List Nat) (h : Gsm7.encode C08.T text = some s) :
+    ∀ c ∈ text, gsmEncodable C08.T c := by
+  induction text generalizing s with
+  | nil => simp
+  | cons c cs ih =>
+    simp only [Gsm7.encode] at h
+    intro x hx
+    simp only [List.mem_cons] at hx
+    cases h1 : Gsm7.lookup C08.T.fwd c with
+    | some v =>
+      simp only [h1, Option.map_eq_some_iff] at h
+      obtain ⟨r, hr, _⟩ := h
+      rcases hx with rfl | hx
+      · exact Or.inl (by simp [h1])
+      · exact ih r hr x hx
+    | none =>
+      simp only [h1] at h
+      cases h2 : Gsm7.lookup C08.T.fwdEsc c with
+      | none => simp [h2] at h
+      | some v =>
+        simp only [h2, Option.map_eq_some_iff] at h
+        obtain ⟨r, hr, _⟩ := h
+        rcases hx with rfl | hx
+        · exact Or.inr (by simp [h2])
+        · exact ih r hr x hx
+
+theorem gsm_encode_of_encodable (t : List Nat) (h : ∀ c ∈ t, gsmEncodable C08.T c) :
+    Gsm7.encode C08.T t = some (gsmChars C08.T t).flatten := by
+  induction t with
+  | nil => rfl
+  | cons c cs ih =>
+    have ihc := ih (fun x hx => h x (by simp [hx]))
+    have hc := h c (by simp)
+    simp only [Gsm7.encode, gsmChars, List.map_cons, List.flatten_cons]
+    cases h1 : Gsm7.lookup C08.T.fwd c with
+    | some v => simp [ihc, gsmChars]
+    | none =>
+      cases h2 : Gsm7.lookup C08.T.fwdEsc c with
+      | some v => simp [ihc, gsmChars]
+      | none =>
+        rcases hc with hc | hc
+        · simp [h1] at hc
+        · simp [h2] at hc
+
+/-- **C14 for GSM 7-bit**: the parts (septet strings, cut with the escape-aware rule) decoded
+    separately and concatenated give the text -/
+theorem C14_gsm_parts_decode_to_text (text s : List Nat) (h : Gsm7.encode C08.T text = some s)
+    (per : Nat) (hper : 2 ≤ per) :
+    ∃ pieces : List (List Nat), pieces.flatten = text ∧
+      slices s 0 (cutPoints gsmBoundary s per (s.length + 1) 0)
+        = pieces.map (fun t => (gsmChars C08.T t).flatten) ∧
+      ∀ t ∈ pieces, Gsm7.decode C08.T (gsmChars C08.T t).flatten = some t := by
+  obtain ⟨hf, hseg⟩ := gsm_encode_chars text s h
+  have hne : ∀ ch ∈ gsmChars C08.T text, ch ≠ [] := by
+    intro ch hch
+    rcases hseg ch hch with ⟨x, rfl, _⟩ | ⟨y, rfl, _⟩ <;> simp
+  have hpart := cutPoints_partition gsmBoundary s per (by omega) (s.length + 1) 0 (Nat.zero_le _) (by omega)
+  obtain ⟨segs, hsegs, hsl⟩ := slices_are_groups (gsmChars C08.T text) hne per _ 0 0 (Nat.zero_le _) (by simp)
+    (by rw [hf]; exact hpart) (C14_gsm_text_never_split text s h per hper)
+  rw [hf] at hsl
+  simp only [List.drop_zero, gsmChars_eq_map] at hsegs
+  obtain ⟨pieces, hp, hsegs'⟩ := groups_of_map (gsmCode C08.T) segs text hsegs
+  have henc := gsm_encode_all_encodable text s h
+  refine ⟨pieces, hp, ?_, ?_⟩
+  · rw [hsl, hsegs']; simp [gsmChars_eq_map, List.map_map, Function.comp_def]
+  · intro t ht
+    have hsub : ∀ c ∈ t, gsmEncodable C08.T c := by
+      intro c hc
+      exact henc c (by rw [← hp]; exact List.mem_flatten.2 ⟨t, ht, hc⟩)
+    exact C08.C08_encode_decode t _ (gsm_encode_of_encodable t hsub)
+
 /-- non-vacuity: "你😀好" is accepted by the UCS-2 encoder (8 octets, the pair in the middle) -/
 example : Text.encodeAll Text.utf16 [0x4F60, 0x1F600, 0x597D] = some [0x4F, 0x60, 0xD8, 0x3D, 0xDE, 0x00, 0x59, 0x7D] := by decide
 /-- non-vacuity: "a€b" is accepted by the GSM 7-bit encoder as 61 1B 65 62 -/
@@ -972,6 +1056,7 @@ open SmsVerif.C14
 #print axioms C07_filled_ucs2
 #print axioms C07_filled_gb18030
 #print axioms C14_ucs2_parts_decode_to_text
+#print axioms C14_gsm_parts_decode_to_text
 #print axioms parts_decode_to_text
 #print axioms C14_ucs2_text_never_split
 #print axioms C14_gsm_text_never_split
